@@ -702,6 +702,45 @@ structure Cache where
   objs : List (Id × T) := []
   built : List Id := []
 
+/-- `storage[i]` with cache: a cached object is returned as it is; otherwise the document is decoded
+with `dec`, the object is cached and `i` is logged as built -/
+def getC (dec : Cache → J → Except Err (T × Cache)) (s : Store) (c : Cache) (i : Id) : Except Err (T × Cache) :=
+  match lookup i c.objs with
+  | some o => pure (o, c)
+  | none =>
+    match lookup i s with
+    | some d => do
+        let (o, c') ← dec c d
+        pure (o, { objs := put i o c'.objs, built := c'.built ++ [i] })
+    | none => throw .keyError
+
+def mapMC (dec : Cache → J → Except Err (T × Cache)) : Cache → List J → Except Err (List T × Cache)
+  | c, [] => pure ([], c)
+  | c, x :: xs => do
+      let (o, c1) ← dec c x
+      let (os, c2) ← mapMC dec c1 xs
+      pure (o :: os, c2)
+
+def decValueC (dec : Cache → J → Except Err (T × Cache)) (c : Cache) : String × J → Except Err (Item × Cache)
+  | (k, .obj kvs) =>
+      if (lookup typeKey kvs).isSome then do
+        let (o, c1) ← dec c (.obj kvs)
+        pure (.child k o, c1)
+      else pure (.data k (.obj kvs), c)
+  | (k, .arr (x :: xs)) =>
+      if (x :: xs).all J.isTyped then do
+        let (os, c1) ← mapMC dec c (x :: xs)
+        pure (.children k os, c1)
+      else pure (.data k (.arr (x :: xs)), c)
+  | (k, v) => pure (.data k v, c)
+
+def mapMItemsC (dec : Cache → J → Except Err (T × Cache)) : Cache → List (String × J) → Except Err (List Item × Cache)
+  | c, [] => pure ([], c)
+  | c, kv :: rest => do
+      let (it, c1) ← decValueC dec c kv
+      let (its, c2) ← mapMItemsC dec c1 rest
+      pure (it :: its, c2)
+
 def decTC : Nat → Store → Cache → J → Except Err (T × Cache)
   | 0, _, _, _ => throw .fuel
   | f + 1, s, c, .obj kvs =>
@@ -709,61 +748,21 @@ def decTC : Nat → Store → Cache → J → Except Err (T × Cache)
       | some (.str ty) =>
           if ty = "reference" then
             match lookup idKey kvs with
-            | some (.str i) =>
-                match lookup i c.objs with
-                | some o => pure (o, c)
-                | none =>
-                  match lookup i s with
-                  | some d => do
-                      let (o, c') ← decTC f s c d
-                      pure (o, { objs := put i o c'.objs, built := c'.built ++ [i] })
-                  | none => throw .keyError
+            | some (.str i) => getC (decTC f s) s c i
             | _ => throw .refWithoutId
           else
             match Cls.ofTypeName ty with
             | none => throw .unknownType
-            | some cls =>
-                let id : Option Id := idOf kvs
-                let rec goList (c : Cache) : List J → Except Err (List T × Cache)
-                  | [] => pure ([], c)
-                  | x :: xs => do
-                      let (o, c1) ← decTC f s c x
-                      let (os, c2) ← goList c1 xs
-                      pure (o :: os, c2)
-                let rec goItems (c : Cache) : List (String × J) → Except Err (List Item × Cache)
-                  | [] => pure ([], c)
-                  | (k, v) :: rest => do
-                      let (it, c1) ← (match v with
-                        | .obj kvs' =>
-                            if (lookup typeKey kvs').isSome then do
-                              let (o, c1) ← decTC f s c v
-                              pure (Item.child k o, c1)
-                            else pure (Item.data k v, c)
-                        | .arr (x :: xs) =>
-                            if (x :: xs).all J.isTyped then do
-                              let (os, c1) ← goList c (x :: xs)
-                              pure (Item.children k os, c1)
-                            else pure (Item.data k v, c)
-                        | _ => pure (Item.data k v, c) : Except Err (Item × Cache))
-                      let (its, c2) ← goItems c1 rest
-                      pure (it :: its, c2)
-                do
-                  let (kw, c') ← goItems c (stripHdr kvs)
-                  let o ← construct cls id kw
-                  pure (o, c')
+            | some cls => do
+                let (kw, c') ← mapMItemsC (decTC f s) c (stripHdr kvs)
+                let o ← construct cls (idOf kvs) kw
+                pure (o, c')
       | _ => throw .notSerializable
   | _ + 1, _, _, _ => throw .notSerializable
 
 /-- `storage[i]` on a `PulseStorage` with temporary storage `c` -/
 def loadC (fuel : Nat) (s : Store) (c : Cache) (i : Id) : Except Err (T × Cache) :=
-  match lookup i c.objs with
-  | some o => pure (o, c)
-  | none =>
-    match lookup i s with
-    | some d => do
-        let (o, c') ← decTC fuel s c d
-        pure (o, { objs := put i o c'.objs, built := c'.built ++ [i] })
-    | none => throw .keyError
+  getC (decTC fuel s) s c i
 
 /-! ## Well-formed template objects (what `__init__` guarantees)
 
